@@ -22,6 +22,7 @@ type Obligation struct {
 	Assume []*Term
 	Goal   *Term
 	Cover  bool // must be SAT (vacuity check)
+	Raw    string // complete SMT-LIB text (ground obligations built outside the term IR)
 	// result
 	Status  string // unsat / sat / unknown / timeout / error
 	Solver  string
